@@ -51,3 +51,38 @@ Theorem c08_bss_exact : forall f, frame_ok f ->
   parse_assoc_resp f = Done (s_parse_assoc_resp f) /\ parse_reassoc_resp f = Done (s_parse_reassoc_resp f).
 Proof. exact bss_parsers_exact. Qed.
 Print Assumptions c08_bss_exact.
+
+(* ---- the RSN and WPA element decoders AS TRANSLATED from security.c on this run (Gen/Sites.v), run with ONLY the element body readable ---- *)
+From Coq Require Import String.
+From LW Require Import Base.Bytes Base.CExpr Gen.Sites Spec.CodeSpec Model.Security Proofs.CodeSecurity.
+Local Open Scope string_scope.
+Local Open Scope Z_scope.
+(* the value returned is the model's: 0 exactly when the model decodes the element, -EINVAL exactly when it refuses; the model never faults *)
+
+Theorem c08_code_rsn_info_return_refines_model : forall buf start rho,
+  wfbytes buf -> 0 < start -> start + zlen buf < 2 ^ 62 ->
+  let rho0 := upd (upd rho "tag_data" start) "tag_end" (start + zlen buf) in
+  let model := get_rsn_info (rd_strict buf) 0 (zlen buf) in
+  exists v tr,
+    observe (exec 400 (mem_at start buf) rho0 [] body_libwifi_get_rsn_info) = Some (Some v, tr) /\
+    (v = 0 <-> exists i, model = Done (Ok i)) /\
+    (v = -22 <-> exists c, model = Done (Err c)) /\
+    (forall c, model = Done (Err c) -> c = v) /\
+    (exists o, model = Done o).
+Proof. exact code_rsn_info_return_refines_model. Qed.
+Print Assumptions c08_code_rsn_info_return_refines_model.
+
+
+Theorem c08_code_wpa_info_return_refines_model : forall buf start rho,
+  wfbytes buf -> 0 < start -> start + zlen buf < 2 ^ 62 ->
+  let rho0 := upd (upd rho "tag_data" start) "tag_end" (start + zlen buf) in
+  let model := get_wpa_info (rd_strict buf) 0 (zlen buf) in
+  exists v tr,
+    observe (exec 400 (mem_at start buf) rho0 [] body_libwifi_get_wpa_info) = Some (Some v, tr) /\
+    (v = 0 <-> exists i, model = Done (Ok i)) /\
+    (v = -22 <-> exists c, model = Done (Err c)) /\
+    (forall c, model = Done (Err c) -> c = v) /\
+    (exists o, model = Done o).
+Proof. exact code_wpa_info_return_refines_model. Qed.
+Print Assumptions c08_code_wpa_info_return_refines_model.
+
